@@ -94,6 +94,16 @@ fn extra_goldens() -> Vec<Golden> {
     ]
 }
 
+use marginfi_type_crate::constants::{CLOSE_ENABLED_FLAG, FREEZE_SETTINGS, PERMISSIONLESS_BAD_DEBT_SETTLEMENT_FLAG, TOKENLESS_REPAYMENTS_ALLOWED, TOKENLESS_REPAYMENTS_COMPLETE};
+const FLAVOURS: [(&str, u64); 6] = [
+    ("plain", 0),
+    ("tokenless_allowed", TOKENLESS_REPAYMENTS_ALLOWED),
+    ("tokenless_complete", TOKENLESS_REPAYMENTS_ALLOWED | TOKENLESS_REPAYMENTS_COMPLETE),
+    ("frozen", FREEZE_SETTINGS),
+    ("permissionless_settlement", PERMISSIONLESS_BAD_DEBT_SETTLEMENT_FLAG),
+    ("close_enabled", CLOSE_ENABLED_FLAG),
+];
+
 #[derive(Clone, Copy, PartialEq, Eq, Debug)]
 enum Expect {
     MustFail,
@@ -161,6 +171,22 @@ pub fn run(tier: Tier) -> Outcome {
             continue;
         }
         for (pos, &b) in g.banks.iter().enumerate() {
+          // the bank additionally carries flag words that open special paths in the handlers (token-less
+          // wind-down allowed / completed, frozen settings, permissionless settlement, closing enabled)
+          for (flavour, fl) in FLAVOURS {
+            let mut s0 = s0.clone();
+            if fl != 0 {
+                world::edit_bank(&mut s0, &e.w.banks[b].key, |bk| bk.flags |= fl);
+                let mut t = s0.clone();
+                let r = process_tx(&mut t, &(g.make)(&e, &s0, sg));
+                cells += 1;
+                if !r.ok() {
+                    *classes.entry(format!("bank_flavour_baseline_refused:{flavour}")).or_insert(0) += 1;
+                    continue;
+                }
+                *classes.entry(format!("bank_flavour_baseline_ok:{flavour}")).or_insert(0) += 1;
+            }
+            let s0 = &s0;
             for st in [BankOperationalState::Paused, BankOperationalState::ReduceOnly, BankOperationalState::KilledByBankruptcy] {
                 let mut s1 = s0.clone();
                 set_state(&mut s1, &e, b, st);
@@ -170,19 +196,20 @@ pub fn run(tier: Tier) -> Outcome {
                 cells += 1;
                 let ex = expectation(g.name, st);
                 *classes.entry(format!("bank_state:{:?}:{}:{}", st, match ex { Expect::MustFail => "must_fail", Expect::MustSucceed => "must_succeed", Expect::Unspecified => "unspecified" }, if r.ok() { "ok" } else { "refused" })).or_insert(0) += 1;
-                let rep = json!({"model": "C14A", "golden": g.name, "bank_role": pos, "state": format!("{:?}", st)});
+                let rep = json!({"model": "C14A", "golden": g.name, "bank_role": pos, "state": format!("{:?}", st), "bank_flags": flavour});
+                let fsig = if fl == 0 { String::new() } else { format!(":{flavour}") };
                 match (ex, r.ok()) {
                     (Expect::MustFail, true) => o.found.push(Found {
                         clause: "C14.bank_state_refuses".into(),
-                        sig: format!("{}:bank{}:{:?}", g.name, pos, st),
-                        detail: format!("{} succeeded although its bank #{} ({}) is {:?}", g.name, pos, e.w.banks[b].label, st),
+                        sig: format!("{}:bank{}:{:?}{fsig}", g.name, pos, st),
+                        detail: format!("{} succeeded although its bank #{} ({}, flags {flavour}) is {:?}", g.name, pos, e.w.banks[b].label, st),
                         replay: rep,
                     }),
                     // "still works" = not refused because of the bank's state (a health rejection of a
                     // withdrawal whose collateral no longer counts is the reduce-only valuation rule)
                     (Expect::MustSucceed, false) if matches!(r.code(), 6016 | 6017 | 6084) => o.found.push(Found {
                         clause: "C14.reduce_only_still_works".into(),
-                        sig: format!("{}:bank{}:{:?}", g.name, pos, st),
+                        sig: format!("{}:bank{}:{:?}{fsig}", g.name, pos, st),
                         detail: format!("{} was refused ({}) although its bank is only reduce-only", g.name, crate::svm::err_name(r.code())),
                         replay: rep,
                     }),
@@ -190,6 +217,58 @@ pub fn run(tier: Tier) -> Outcome {
                 }
                 if samples.len() < 3 && cells % 17 == 0 {
                     samples.push(json!({"instruction": g.name, "bank": e.w.banks[b].label, "state": format!("{:?}", st), "result": crate::svm::err_name(r.code())}));
+                }
+            }
+          }
+        }
+    }
+    // (A3) "a bank killed by bankruptcy accepts none of these, permanently": from a killed bank (settings
+    // frozen or not, wind-down flags or not) every operational-state request of the group admin, alone and in
+    // pairs, leaves it killed and a deposit / withdrawal still refused
+    {
+        use BankOperationalState::*;
+        let targets = [Paused, Operational, ReduceOnly];
+        for (flavour, fl) in FLAVOURS {
+            let mut k0 = e.s.clone();
+            world::edit_bank(&mut k0, &e.w.banks[0].key, |bk| {
+                bk.flags |= fl;
+                bk.config.operational_state = KilledByBankruptcy;
+            });
+            let cfg = |s: &mut Store, st: BankOperationalState, freeze: Option<bool>| {
+                let opt = marginfi_type_crate::types::BankConfigOpt { operational_state: Some(st), freeze_settings: freeze, ..Default::default() };
+                process_tx(s, &Tx::one(ix::configure_bank(e.w.group, e.w.roles.admin, e.w.banks[0].key, opt), &[e.w.roles.admin])).ok()
+            };
+            let mut seqs: Vec<Vec<(BankOperationalState, Option<bool>)>> = vec![];
+            for a in targets {
+                for fa in [None, Some(true)] {
+                    seqs.push(vec![(a, fa)]);
+                    for b in targets {
+                        seqs.push(vec![(a, fa), (b, None)]);
+                    }
+                }
+            }
+            for seq in seqs {
+                let mut s = k0.clone();
+                let mut accepted = 0;
+                for (st, fr) in &seq {
+                    if cfg(&mut s, *st, *fr) {
+                        accepted += 1;
+                    }
+                }
+                cells += 1;
+                let now = world::bank(&s, &e.w.banks[0].key).config.operational_state;
+                let mut t = s.clone();
+                let dep = act::apply(&e.w, &mut t, &Action::Deposit { u: 0, b: 0, amt: 10, up_to_limit: None });
+                let mut t = s.clone();
+                let wd = act::apply(&e.w, &mut t, &Action::Withdraw { u: 0, b: 0, amt: 1, all: false });
+                *classes.entry(format!("killed_permanence:{flavour}:requests_accepted_{accepted}:{}", if now == KilledByBankruptcy { "still_killed" } else { "REOPENED" })).or_insert(0) += 1;
+                if now != KilledByBankruptcy || dep.committed || wd.committed {
+                    o.found.push(Found {
+                        clause: "C14.killed_is_permanent".into(),
+                        sig: format!("{flavour}:{:?}", seq.iter().map(|x| x.0).collect::<Vec<_>>()),
+                        detail: format!("a bank killed by bankruptcy (flags {flavour}) is {:?} after the group admin's operational-state requests {:?}; deposit {} / withdraw {}", now, seq, crate::svm::err_name(dep.code), crate::svm::err_name(wd.code)),
+                        replay: json!({"model": "C14A3", "golden": "", "flavour": flavour}),
+                    });
                 }
             }
         }
@@ -267,8 +346,18 @@ pub fn run(tier: Tier) -> Outcome {
     // ---------------- (B) protocol-wide pause
     let fa = e.w.fee_admin;
     for g in &gs {
-        let s0 = (g.prep)(&e);
-        let sg = golden::role_key(&e, g.role);
+      let s0 = (g.prep)(&e);
+      // the golden's own signer, and every other identity of the signer menu for which the call succeeds
+      // without a pause (second entitled roles: the risk admin for bankruptcy, the group admin on a frozen
+      // account, ...)
+      let primary = golden::role_key(&e, g.role);
+      let mut sgs: Vec<(String, solana_program::pubkey::Pubkey, bool)> = vec![("".into(), primary, true)];
+      for (label, k) in super::c08::signer_menu(&e) {
+          if !sgs.iter().any(|x| x.1 == k) {
+              sgs.push((format!(":signed_by_{label}"), k, false));
+          }
+      }
+      for (sg_label, sg, is_primary) in sgs {
         let run_at = |s: &Store| -> (bool, u64, Option<String>) {
             let tx = (g.make)(&e, s, sg);
             let mut t = s.clone();
@@ -309,8 +398,14 @@ pub fn run(tier: Tier) -> Outcome {
             // ran out, then cleared by anyone and propagated
             ("cleared_by_anyone", vec![Pause, Propagate, Wait(1800), UnpauseAnyone, Propagate], 0, 0, if deep { vec![1801, 1802, 2700, 3600] } else { vec![1801, 2700] }),
         ];
+        if !is_primary {
+            *classes.entry("second_entitled_signer".into()).or_insert(0) += 1;
+        }
         let mut built: Vec<(&str, Store, i64, i64, i64, Vec<i64>)> = vec![];
         for (name, ops, from, until, probes) in defs {
+            if !is_primary && name != "single" && name != "extended" {
+                continue;
+            }
             let mut st = s0.clone();
             let mut elapsed = 0i64;
             let mut ok = true;
@@ -362,7 +457,7 @@ pub fn run(tier: Tier) -> Outcome {
                     if ok && moved {
                         o.found.push(Found {
                             clause: "C14.pause_blocks_fund_and_position_changes".into(),
-                            sig: g.name.to_string(),
+                            sig: format!("{}{sg_label}", g.name),
                             detail: format!("{} succeeded {} s into a propagated protocol pause ({scn}, in force for {length} s): {}", g.name, dt, what_moved.clone().unwrap_or_default()),
                             replay: rep,
                         });
@@ -373,7 +468,7 @@ pub fn run(tier: Tier) -> Outcome {
                     if ok_twin && !ok {
                         o.found.push(Found {
                             clause: "C14.expired_pause_does_not_block".into(),
-                            sig: g.name.to_string(),
+                            sig: format!("{}{sg_label}", g.name),
                             detail: format!("{} is still refused ({}) {} s after the pause started ({scn}, length {length} s; repropagated: {}) although it succeeds in the never-paused world", g.name, crate::svm::err_name(code), dt, repropagate),
                             replay: rep,
                         });
@@ -382,6 +477,7 @@ pub fn run(tier: Tier) -> Outcome {
             }
         }
         }
+      }
     }
     if cells < 500 {
         o.machinery.push(format!("vacuity guard: only {} cells executed", cells));
@@ -389,10 +485,13 @@ pub fn run(tier: Tier) -> Outcome {
     if !classes.keys().any(|k| k.starts_with("pause_in_force:refused")) {
         o.machinery.push("vacuity guard: the pause never refused anything".into());
     }
-    for need in ["scenario:single:in_force:refused", "scenario:extended:in_force:refused", "scenario:second:in_force:refused", "scenario:lifted:not_in_force:ok", "scenario:cleared_by_anyone:not_in_force:ok"] {
+    for need in ["second_entitled_signer", "bank_flavour_baseline_ok:tokenless_complete", "scenario:single:in_force:refused", "scenario:extended:in_force:refused", "scenario:second:in_force:refused", "scenario:lifted:not_in_force:ok", "scenario:cleared_by_anyone:not_in_force:ok"] {
         if !classes.contains_key(need) {
             o.machinery.push(format!("vacuity guard: class {need} never occurred"));
         }
+    }
+    if !classes.keys().any(|k| k.starts_with("killed_permanence:frozen:")) {
+        o.machinery.push("vacuity guard: the killed-and-frozen bank was never probed".into());
     }
     if samples.is_empty() {
         samples.push(json!({"note": "see outcome classes"}));
@@ -401,7 +500,7 @@ pub fn run(tier: Tier) -> Outcome {
     o.coverage = json!({
         "evaluations": cells,
         "distinct_nontrivial": refused,
-        "rule": "(A) every financial instruction (deposit, withdraw, withdraw-all, borrow, repay, repay-all, liquidation with asset and debt bank separately, bankruptcy, Token-2022 deposit, ...) x each of its banks x {Paused, ReduceOnly, KilledByBankruptcy} against the statement's table (refusals and the 'still works' cells), and for instructions with two banks every pair of non-operational states on both at once; (B) every golden instruction of the program x a propagated protocol pause at +1 s, +1799 s (in force: a success must not move any position or token amount of the group) and +1800 s, +1801 s with and without re-propagation (expired: same verdict as the never-paused twin at the same clock), and the same around an extended pause (paused at T, extended and propagated at T+600, in force until T+3600; probes at +601, +1800, +2400, +3599, +3600, +3601), a pause lifted by the admin and propagated (never in force afterwards), a second pause issued and propagated the second the first ran out (in force for T+1800..T+3600), and a run-out pause cleared by anyone and propagated; the thorough tier probes every scenario at both neighbours of each boundary second and far beyond; distinct_nontrivial = refused cells",
+        "rule": "(A) [each cell also with the bank flagged token-less-repayment allowed / completed, settings frozen, permissionless settlement, close enabled; (A3) a killed bank x those flags x every one- and two-step operational-state request of the group admin (with and without a freeze request) stays killed and refuses deposit and withdrawal; (B) also signed by every other identity for which the un-paused call succeeds] (A) every financial instruction (deposit, withdraw, withdraw-all, borrow, repay, repay-all, liquidation with asset and debt bank separately, bankruptcy, Token-2022 deposit, ...) x each of its banks x {Paused, ReduceOnly, KilledByBankruptcy} against the statement's table (refusals and the 'still works' cells), and for instructions with two banks every pair of non-operational states on both at once; (B) every golden instruction of the program x a propagated protocol pause at +1 s, +1799 s (in force: a success must not move any position or token amount of the group) and +1800 s, +1801 s with and without re-propagation (expired: same verdict as the never-paused twin at the same clock), and the same around an extended pause (paused at T, extended and propagated at T+600, in force until T+3600; probes at +601, +1800, +2400, +3599, +3600, +3601), a pause lifted by the admin and propagated (never in force afterwards), a second pause issued and propagated the second the first ran out (in force for T+1800..T+3600), and a run-out pause cleared by anyone and propagated; the thorough tier probes every scenario at both neighbours of each boundary second and far beyond; distinct_nontrivial = refused cells",
         "golden_calls_not_exercised": not_exercised,
         "exhaustive": true,
         "outcome_classes": classes,
